@@ -13,6 +13,8 @@ def build(profile='release', extra_env=None, target_sub='libmon', cargo_args=Non
     lock = os.path.join(core.REPO, 'Cargo.lock')
     if os.path.exists(lock) and not os.path.exists(os.path.join(LIBMON, 'Cargo.lock')):
         shutil.copy(lock, os.path.join(LIBMON, 'Cargo.lock'))
+    if core.COV_DIR and not toolchain and not extra_env:
+        target_sub, toolchain, extra_env = target_sub + '_cov', '+nightly', {'RUSTFLAGS': '-Cinstrument-coverage'}
     tdir = os.path.join(core.TARGET, target_sub)
     env = core.cargo_env({'CARGO_TARGET_DIR': tdir})
     if extra_env:
